@@ -541,6 +541,9 @@ impl Sim {
             self.deliveries_to_finished += 1;
         }
         self.lt_states_seen |= 1 << (self.lt_state as u8);
+        if self.cfg.fingerprint && awaiting_before && facts.ref_ok && facts.fp != Some(true) {
+            self.bad_fp_to_outstanding += 1;
+        }
         let any_awaiting = !self.awaiting().is_empty();
         let r = self.client.on_buffer_recv(bytes, at(self.now));
         let events = convert_events(self.client.events());
